@@ -6,8 +6,28 @@ use vstd::arithmetic::mul::*;
 use vstd::arithmetic::power2::*;
 use vstd::arithmetic::div_mod::*;
 use vstd::bits::*;
+use vstd::std_specs::cmp::*;
+use vstd::std_specs::ops::*;
 verus! {
 //@ include lib/base.rs
+
+//@ extract src/lib.rs struct Uint
+pub struct Uint<const BITS: usize, const LIMBS: usize> { pub
+    limbs: [u64; LIMBS],
+}
+//@ end
+//@ include lib/uint_spec.rs
+//@ include lib/uint_ops.rs
+
+impl<const BITS: usize, const LIMBS: usize> Uint<BITS, LIMBS> {
+    // ASSUMED (label A): the generic conversion `Uint::from(u64)` (trait-generic plumbing over TryFrom<u64>, which unit conv proves):
+    // panics unless the value fits, else yields it
+    #[verifier::external_body]
+    pub fn from(v: u64) -> (r: Self)
+        requires (v as nat) < pow2(BITS as nat)
+        ensures r.wf(), r.val() == v
+    { unimplemented!() }
+}
 
 //@ extract src/algorithms/gcd/matrix.rs struct Matrix
 pub struct Matrix(pub u64, pub u64, pub u64, pub u64, pub bool);
@@ -76,7 +96,7 @@ impl Matrix {
         requires r0 >= r1
         ensures
             r1 == 0 ==> is_identity(m),
-            r1 != 0 ==> lehmer_ok(m, r0 as int, r1 as int) && m.0 <= r0 && m.1 <= r0 && m.2 <= r0 && m.3 <= r0,/*-*/
+            r1 != 0 ==> lehmer_ok(m, r0 as int, r1 as int),/*-*/
     { let mut r0 = r0 ; let mut r1 = r1 ;
         /*+*/let ghost aa = r0 as int; let ghost bb = r1 as int;/*-*/
         vassert (r0 >= r1 );
@@ -172,6 +192,54 @@ impl Matrix {
                 return Matrix(q00, q01, q10, q11, true);
             }
         }
+    }
+//@ end
+    // (x*u - y*v) mod W through the wrapping operators:  ((x*u) mod W - (y*v) mod W) mod W
+    pub proof fn lemma_wrapping_row(x: int, u: int, y: int, v: int, w: int)
+        requires w > 0
+        ensures (((x * u) % w) - ((y * v) % w)) % w == (x * u - y * v) % w
+    {
+        lemma_sub_mod_noop(x * u, y * v, w);
+    }
+
+//@ extract src/algorithms/gcd/matrix.rs fn apply
+    pub fn apply<const BITS: usize, const LIMBS: usize>(
+        &self,
+        a: &mut Uint<BITS, LIMBS>,
+        b: &mut Uint<BITS, LIMBS>,
+    )
+        /*+*/requires old(a).wf(), old(b).wf(),
+            // the entries must fit the type (Uint::from panics otherwise); matrices produced by `from` have entries <= a
+            BITS > 0 ==> (self.0 as nat) < pow2(BITS as nat) && (self.1 as nat) < pow2(BITS as nat) && (self.2 as nat) < pow2(BITS as nat) && (self.3 as nat) < pow2(BITS as nat),
+        ensures final(a).wf(), final(b).wf(),
+            final(a).val() as int == maps(*self, old(a).val() as int, old(b).val() as int).0 % m2(BITS),
+            final(b).val() as int == maps(*self, old(a).val() as int, old(b).val() as int).1 % m2(BITS),/*-*/
+    {
+        /*+*/let ghost av = a.val() as int; let ghost bv = b.val() as int; let ghost W = m2(BITS);/*-*/
+        if BITS == 0 {
+            /*+*/proof { lemma2_to64(); a.lemma_wf_lt(); b.lemma_wf_lt(); }/*-*/
+            return;
+        }
+        /*+*/proof {
+            lemma_pow2_pos(BITS as nat);
+            Self::lemma_wrapping_row(self.0 as int, av, self.1 as int, bv, W);
+            Self::lemma_wrapping_row(self.3 as int, bv, self.2 as int, av, W);
+            Self::lemma_wrapping_row(self.1 as int, bv, self.0 as int, av, W);
+            Self::lemma_wrapping_row(self.2 as int, av, self.3 as int, bv, W);
+        }/*-*/
+        let (c, d) = if self.4 {
+            (
+                Uint::from(self.0) * *a - Uint::from(self.1) * *b,
+                Uint::from(self.3) * *b - Uint::from(self.2) * *a,
+            )
+        } else {
+            (
+                Uint::from(self.1) * *b - Uint::from(self.0) * *a,
+                Uint::from(self.2) * *a - Uint::from(self.3) * *b,
+            )
+        };
+        *a = c;
+        *b = d;
     }
 //@ end
 }
